@@ -192,6 +192,12 @@ func (s *fileLoopCursor) FilterRecInMemTable(re *record.Record, cond influxql.Ex
 	rec := s.recPool.Get()
 	if s.isCutSchema {
 		rec.AppendRecForSeries(r, 0, r.RowNums(), s.ridIdx)
+		// a row that was kept only for a filter column may have no value left
+		rec = rec.KickNilRow(nil, &record.ColAux{})
+		if rec.RowNums() == 0 {
+			s.recPool.PutRecordInCircularPool()
+			return nil, nil
+		}
 	} else {
 		rec.CopyImpl(r, false, false, true, 0, r.RowNums()-1, r.Schema)
 	}
@@ -327,6 +333,12 @@ func (s *fileLoopCursor) ReadAggDataNormal() (*record.Record, *comm.FileInfo, er
 		rec := s.recPool.Get()
 		if s.isCutSchema {
 			rec.AppendRecForSeries(re.record, 0, re.record.RowNums(), s.ridIdx)
+			// a row that was kept only for a filter column may have no value left
+			rec = rec.KickNilRow(nil, &record.ColAux{})
+			if rec.RowNums() == 0 {
+				s.recPool.PutRecordInCircularPool()
+				continue
+			}
 		} else {
 			rec.CopyImpl(re.record, false, false, true, 0, re.record.RowNums()-1, re.record.Schema)
 		}
